@@ -311,7 +311,13 @@ func (te *tableEngine) settleGame() []*TablePlayerState {
 	return alivePlayers
 }
 
-func (te *tableEngine) continueGame(alivePlayers []*TablePlayerState) error {
+// resetTableForNextGame clears the per-hand fields under the engine lock: a departure processed
+// while the loop below was running used to make it fail half way (player unknown to the seat
+// manager), leaving labels / statistics set and the table in standby for ever.
+func (te *tableEngine) resetTableForNextGame() error {
+	te.lock.Lock()
+	defer te.lock.Unlock()
+
 	// Reset table state
 	te.table.State.Status = TableStateStatus_TableGameStandby
 	te.table.State.GamePlayerIndexes = make([]int, 0)
@@ -332,6 +338,14 @@ func (te *tableEngine) continueGame(alivePlayers []*TablePlayerState) error {
 		}
 
 		playerState.IsParticipated = active
+	}
+
+	return nil
+}
+
+func (te *tableEngine) continueGame(alivePlayers []*TablePlayerState) error {
+	if err := te.resetTableForNextGame(); err != nil {
+		return err
 	}
 
 	var nextMoveInterval int
